@@ -294,5 +294,12 @@ def run(chk, prog):
     chk.floor("R5-reader", len(r5) + len(r8), 10)
     # ---- R6: the source-map table is rebuilt whenever the displacement field changes (a stale table moves the grid by old offsets) ----
     K.offset_table_sync(chk, prog, "R6")
+    # ---- R7: the weights are a function of (offset, order) only: the weight function keeps no state between calls -------------------------
+    from .common import no_state_between_calls
+    for q_ in ("vfps::SourceMap::calcCoefficiants",):
+        no_state_between_calls(chk, prog.fn(q_), "R7")
+    for fq_ in prog.functions.values():
+        if fq_.get("body") and fq_["name"] in ("updateSM", "genHInfo") and (fq_.get("class") or "").startswith("vfps::"):
+            no_state_between_calls(chk, fq_, "R7")
     chk.notes.append("C02: Lagrange/partition-of-unity identities for orders 1-4 over nodes read from updateSM/genHInfo; "
                      "exact-zero structure at f=0; frac/ipart pairing; bounds-guarded weights. Not decided: rounding over all floats.")
